@@ -2339,7 +2339,17 @@ class Problem(object, metaclass=ProblemMetaclass):
                     else:
                         val = outputs[name]
 
-                    for abs_name in resolver.absnames(name):
+                    abs_names = resolver.absnames(name)
+                    if not resolver.is_prom(name, 'output'):
+                        # an auto_ivc output, recorded under the promoted name of the inputs it
+                        # feeds.  Its value is in the units (and has the shape) of the source, so
+                        # set the source itself and not each input, which may differ in units
+                        # or select part of the source with src_indices.
+                        if not all(set_later(abs_name) for abs_name in abs_names):
+                            model.set_val(model.get_source(abs_names[0]), val)
+                        continue
+
+                    for abs_name in abs_names:
                         if set_later(abs_name):
                             continue
 
